@@ -116,6 +116,17 @@ class Engine:
             rt = self.check(cond)
             rf = self.check(z3.Not(cond))
             if rt == z3.unknown or rf == z3.unknown:
+                # retry once with a longer budget (a loaded machine); a side that stays unknown is explored as if
+                # feasible -- an over-approximation of the path set, so no feasible path is lost; counted for the evidence
+                self.solver.set("timeout", self.query_timeout_ms * 4)
+                try:
+                    if rt == z3.unknown:
+                        rt = self.check(cond)
+                    if rf == z3.unknown:
+                        rf = self.check(z3.Not(cond))
+                finally:
+                    self.solver.set("timeout", self.query_timeout_ms)
+            if rt == z3.unknown or rf == z3.unknown:
                 self.branch_unknown += 1
             can_t = rt != z3.unsat
             can_f = rf != z3.unsat
